@@ -26,7 +26,7 @@ META = {
     'property_id': 'C10',
     'technique': 'Lean 4 theorems over a model of unexports2 symbol lookup (all tables, names, 64-bit biases, call histories) + differential run of the real package against the model on every symbol of test binaries built in several link modes and patched variants, with a runtime-table / &v oracle',
     'level': 'proof',
-    'level_text': 'Partial: proved for every table, name, bias and call history that a lookup returns an address iff the table has an entry with exactly that name (first wins) and then its table address plus the slide recovered from the anchor, that absent names and every kind of unreadable table (no .gopclntab as in PIE, no .text, not ELF, bad pclntab; no ELF symbols for variables) give an error for every call, and that results do not depend on earlier calls. That the loader maps every other symbol with the same bias as the anchor is assumed, and checked on every symbol of the built binaries.',
+    'level_text': 'Partial: proved for every table, name, bias and call history that a lookup returns an address iff the table has an entry with exactly that name (first wins) and then its table address plus the slide recovered from the anchor, that absent names and every kind of unreadable table (no .gopclntab as in PIE, no .text, not ELF, bad pclntab; no ELF symbols for variables) give an error for every call, and that results do not depend on earlier calls — lookups, ExposeFunction and AllFunctions listings alike (history_independent, run_pointwise, all_functions_spec); histories in which the caller clears/filters/edits the listing it was handed are run against the real package. That the loader maps every other symbol with the same bias as the anchor is assumed, and checked on every symbol of the built binaries.',
     'level_note': 'Trusted: Lean kernel (axioms propext, Classical.choice, Quot.sound at most); the linker/loader contract (one bias for all functions, one for all data symbols; pclntab entry = runtime.text-relative offset); debug/elf and debug/gosym parse the file as the check\'s own independent reader does (differentially checked on every run); the hand model Model/Sym.lean (differentially checked on every query). Not covered: darwin/windows readers (cannot run here), pclntab names that occur more than once (first wins; counted). Concurrent callers: proved for every schedule of whole calls (conc_any_schedule); that sync.Once makes a call atomic with respect to the alignment state is trusted and observed by the concurrent-first-use lane (goroutines released from a barrier in fresh processes of slid executables — a test, not a proof). Executable file deleted/replaced before first use: required behaviour (error) proved as exe_gone_is_error and observed in child processes; replacement by a DIFFERENT binary at the same path is not exercised.',
 }
 
@@ -186,7 +186,17 @@ def apply_variant(e, spec, comp):
     return vbias
 
 
+_TOK_CACHE = {}
+
+
 def describe_tokens(desc, facts):
+    key = (id(desc.get('pcln')), id(desc.get('syms')), desc.get('open', True), desc.get('elf', True), desc['text'], facts['mf'], facts['mv'])
+    if key not in _TOK_CACHE:
+        _TOK_CACHE[key] = _describe_tokens(desc, facts)
+    return _TOK_CACHE[key]
+
+
+def _describe_tokens(desc, facts):
     t = [f'mf={facts["mf"]:#x}', f'mv={facts["mv"]:#x}', 'af=' + esc(AF), 'av=' + esc(AV), ('elf=noopen' if desc.get('open') is False else 'elf=ok' if desc.get('elf', True) else 'elf=bad'),
          'text=-' if desc['text'] is None else f'text={desc["text"]:#x}']
     if desc['pcln'] is None:
@@ -377,6 +387,16 @@ def facts_of(binary, tag):
 
 def oracle(case, q, obs, rt):
     """The property on what the real process did for one query.  Returns None or the complaint."""
+    if q[0] == 'a':
+        d = case['desc']
+        ok = d.get('open', True) and d.get('elf', True) and d['text'] is not None and d['pcln'] not in (None, 'bad')
+        if obs is None or obs.startswith('panic') or not (obs.startswith('set:') or obs.startswith('err:')):
+            return f'AllFunctions must return a set or an error, got {obs}'
+        if ok and obs != f'set:{len(case["fnames"])}':
+            return f'AllFunctions returned {obs}; the table of this file has {len(case["fnames"])} distinct function names'
+        if not ok and obs.startswith('set:'):
+            return f'table cannot be read from this file but AllFunctions returned {obs}'
+        return None
     if q[0] in 'FMV':
         if q[0] == 'F' and q.endswith('|'):
             return None if obs == 'panic:empty-name' else f'ExportFunc("") must be refused, got {obs}'
@@ -534,11 +554,42 @@ def small_queries(case, comp, r, k, miss):
     return q
 
 
+def allfuncs_histories(cases, comp, rng, tier):
+    """AllFunctions() between lookups, the caller editing the set it was handed (clear it, filter it down to one package,
+    delete a name, insert a made-up name): a listing is a fresh value, later lookups of names of every kind and later
+    listings must be unaffected."""
+    hs = []
+    for case in cases:
+        if not (case['variant'] == 'as-linked' or case['variant'] in FULL_SWEEP_VARIANTS):
+            continue
+        r = rng.fork('q-allfuncs-' + case['id'])
+        fnl = list(case['fnames_raw']) or [x.encode() for x in comp['funcs']]
+        k = 40 if tier == 'quick' else 400
+        q = [('a:none', 'allfuncs')] if r.below(2) and tier == 'quick' else []          # also: AllFunctions as the very first call of the process
+        q += small_queries(case, comp, r, 8, 2)
+        victim = fnl[r.below(len(fnl))]
+        edits = ['a:del=' + esc(victim), 'a:add=' + esc(PKG.encode() + b'.zzNoSuchFunc'), 'a:keep=' + esc(r.choice([b'runtime.', PKG.encode(), b'zz'])),
+                 'a:clear', 'a:none']
+        if tier == 'thorough':          # see conc_histories: a listing costs the model ~13 s on the 38k-function table
+            edits = [edits[r.below(3)], 'a:clear']
+        for edit in edits:
+            q.append((edit, 'allfuncs'))
+            q += [('f:' + esc(victim), 'func'), ('x:' + esc(victim), 'expose'), ('f:' + esc(PKG.encode() + b'.zzNoSuchFunc'), 'miss-made-up')]
+            q += small_queries(case, comp, r, k, k // 10)
+        q.append(('a:none', 'allfuncs'))
+        h = dict(case)
+        h['id'] = case['id'] + '.allfuncs'
+        h['queries'] = q
+        hs.append(h)
+    return hs
+
+
 def conc_histories(cases, comp, rng, tier):
     """Concurrent first use: N goroutines released from a spin barrier, each doing its first lookup, on executables whose
     slide is not zero (there a lookup that overtakes the once-only initialisation is visibly wrong); fresh process each."""
-    plan = {'ext.as-linked': ((2, 4, 8, 16), 3 if tier == 'quick' else 12), 'sym.text-slide0x1000': ((4, 16), 2 if tier == 'quick' else 8),
-            'sym.both-slides': ((3, 16), 1 if tier == 'quick' else 8)}
+    # (thorough executables have 90k table entries: every extra process costs ~10 s of table parsing on both sides)
+    plan = {'ext.as-linked': ((2, 4, 8, 16), 3 if tier == 'quick' else 4), 'sym.text-slide0x1000': ((4, 16), 2 if tier == 'quick' else 3),
+            'sym.both-slides': ((3, 16), 1 if tier == 'quick' else 2)}
     hs = []
     for case in cases:
         if case['id'] not in plan:
@@ -549,6 +600,12 @@ def conc_histories(cases, comp, rng, tier):
                 h['id'] = f'{case["id"]}.conc{n}.{rep}'
                 h['g'] = n
                 h['queries'] = small_queries(case, comp, rng.fork('q-' + h['id']), 6 * n, n // 2)
+                # AllFunctions listings (edited by the caller) among the later calls — never among the first n, those are the racing
+                # first lookups.  The model's distinct-name count is quadratic in the table: with thorough's 38k functions one listing
+                # costs the driver ~13 s, so thorough lists only in the 16-goroutine histories of the externally linked executable.
+                edits = ('a:clear', 'a:keep=runtime.', 'a:none') if tier == 'quick' else (('a:clear',) if (case['id'], n) == ('ext.as-linked', 16) else ())
+                for j, edit in enumerate(edits):
+                    h['queries'].insert(n + (j * 2 * n + rep) % (len(h['queries']) - n), (edit, 'allfuncs'))
                 hs.append(h)
     return hs
 
@@ -573,7 +630,7 @@ def self_histories(cases, comp, rng, tier):
         root = os.geteuid() == 0
         plans = [('delete', ob, None, False), ('delete', 'zzc10tool-' + cid, pdir, False), ('delete', '/no/such/dir/zz garbage', None, False),
                  ('delete', gotool, None, False), ('chmod000', ob, None, root), ('replace-same', ob, None, True)]
-        if tier == 'quick' and cid == 'sym.as-linked':
+        if cid == 'sym.as-linked':
             plans = plans[:2]
         for k, (act, argv0, pd, openable) in enumerate(plans):
             h = dict(case)
@@ -612,7 +669,7 @@ def run(tier):
             h2['queries'] = [('x:' + esc(n), 'expose-first') for n in pick] + [('f:' + esc(n), 'func') for n in pick] + \
                             [('x:' + esc(n), 'expose') for n in pick] + [('v:' + esc(AV.encode()), 'sym')]
             hist.append(h2)
-    hist += conc_histories(cases, comp, rng, tier) + self_histories(cases, comp, rng, tier)
+    hist += conc_histories(cases, comp, rng, tier) + self_histories(cases, comp, rng, tier) + allfuncs_histories(cases, comp, rng, tier)
     for case in prepare_api(tier, C.seed()):
         cases.append(case)
         h = dict(case)
@@ -658,13 +715,29 @@ def run(tier):
             diffs.append((case, -1, None, 'model rejected the history line (bad-op)'))
     # ---- classify
     seen = set()
-    for case, i, why in sorted(bad, key=lambda b: b[0]['variant'] != 'as-linked'):     # executables exactly as linked first, one line per history
+    # deterministic histories first, executables exactly as linked first, one line per history
+    for case, i, why in sorted(bad, key=lambda b: (bool(b[0].get('g')), b[0]['variant'] != 'as-linked')):
         q = case['queries'][i][0]
         k = case['id']
         if k in seen or len(seen) >= 4:
             continue
         seen.add(k)
-        out.violation(f'[{case["id"]}] {q}: {why}', replay_body(case, comp_spec, [x for x, _ in case['queries']] if case.get('g') else [q], i, why))
+        allq = [x for x, _ in case['queries']]
+        if case.get('g'):
+            rq = allq                                   # a race: the whole history, replay repeats fresh processes
+        else:
+            # smallest of: the call alone / the AllFunctions calls before it + the call / the whole prefix — that still fails
+            rq = allq[:i + 1]
+            for cand in ([q], [x for x in allq[:i] if x[0] == 'a'] + [q]):
+                t = dict(case)
+                t['id'] = case['id'] + '.shrink'
+                t['queries'] = [(x, 'replay') for x in cand]
+                run_case(t, None)
+                if oracle(t, q, t['impl'][-1], t['rt'][-1]):
+                    rq = cand
+                    break
+        out.violation(f'[{case["id"]}] {q}: {why}' + (f' (after {len(rq) - 1} earlier call(s) of the same process: {" ".join(rq[:-1])[:200]})' if len(rq) > 1 and not case.get('g') else ''),
+                      replay_body(case, comp_spec, rq, i, why))
     if not bad:
         if diffs:
             case, i, o, m = diffs[0]
@@ -698,7 +771,7 @@ def run(tier):
                          'not covered: symbols_darwin.go, symbols_windows.go (not executable here)'],
         'theorems': proof['axioms'], 'proof_failures': proof['failed'],
         'evaluations': total, 'distinct_nontrivial': len(distinct), 'traces_validated_against_impl': agreed,
-        'rule': 'one evaluation = one lookup call (FindFuncByName / FindVarByName / ExposeFunction) in a real process of one executable; '
+        'rule': 'one evaluation = one call (FindFuncByName / FindVarByName / ExposeFunction / AllFunctions followed by a caller-side edit of the returned set) in a real process of one executable; '
                 'non-trivial = the call returned an address; distinct by (executable, call, address). as-linked executables: every pclntab function, every ELF symbol, '
                 'cross-kind and near-miss names; patched executables: a random sample of both tables plus the generated symbols (thorough: complete sweep also for one text slide, one data slide and the double slide)',
         'distribution': {'executables': per_mode, 'histories': len(hist), 'outcomes_by_history': stats, 'oracle_complaints': len(bad),
